@@ -114,10 +114,12 @@ SelectSeq2(s, S) == IF s = <<>> THEN <<>>
 (* run() returns <<id, epoch it saw in the context, values of its deps>>.    *)
 (* Entries cached before the call were computed under epoch 0, this call     *)
 (* runs under epoch 1.                                                       *)
+Nulls == IF "nulls" \in DOMAIN cfg THEN Range(cfg.nulls) ELSE {}       \* tasks whose run() returns None (reported as <<"None">>)
 RECURSIVE ValE(_, _)
-ValE(t, e) == <<t, e, [i \in 1..Len(cfg.deps[t]) |-> ValE(cfg.deps[t][i], e)]>>
+ValE(t, e) == IF t \in Nulls THEN <<"None">> ELSE <<t, e, [i \in 1..Len(cfg.deps[t]) |-> ValE(cfg.deps[t][i], e)]>>
 RECURSIVE Val(_)
 Val(t) == IF UsesCache(t) THEN ValE(t, 0)
+          ELSE IF t \in Nulls THEN <<"None">>
           ELSE <<t, 1, [i \in 1..Len(cfg.deps[t]) |-> Val(cfg.deps[t][i])]>>
 
 DoneSet == {t \in Tasks : done[t] # "none"}
